@@ -321,14 +321,6 @@ theorem sortLRU_order (inv : List Row) : LruOrder (sortLRU inv) inv := by
   | cons r rs ih =>
     exact ⟨(insertLRU_perm r _).trans (List.Perm.cons r ih.1), insertLRU_sorted r _ ih.2⟩
 
-theorem noLinkBelow_noDotDot (fs : FS) (cur rel : Path) (h : NoLinkBelow fs cur rel) : ".." ∉ rel := by
-  induction rel generalizing cur with
-  | nil => simp
-  | cons c rest ih =>
-    obtain ⟨h1, _, h3⟩ := h
-    simp only [List.mem_cons, not_or]
-    exact ⟨fun e => h1 e.symm, ih _ h3⟩
-
 /-! ### what `canonicalize` returns is a physical path: no `..`, no symbolic link at any prefix -/
 
 def PhysOk (fs : FS) (p : Path) : Prop :=
@@ -466,7 +458,7 @@ theorem convert_confined (fs : FS) (root : Path) (r : Row) (c : Row × Path)
       · cases h
       · cases h
         refine ⟨rfl, ?_⟩
-        cases hsp : stripPrefix root (canonOrKeep fs (root ++ r.rel)) with
+        cases hsp : stripPrefix root (resolveOrParent fs (root ++ r.rel)) with
         | none => simp [hsp] at hs
         | some rel => exact ⟨rel, stripPrefix_some hsp⟩
     · cases hp
